@@ -48,7 +48,10 @@ def arg_groups(fn):
             stem = "<sret>"
         else:
             stem = re.sub(r"\.coerce\d*$", "", nm)
-        if groups and groups[-1][0] == stem and stem not in ("", "<sret>"):
+        # SysV x86-64 passes a small aggregate in at most two registers: a third piece with the same stem
+        # belongs to the next parameter (consecutive pack elements share the stem `args`)
+        if groups and groups[-1][0] == stem and stem not in ("", "<sret>") and ".coerce" in nm and len(groups[-1][1]) < 2 \
+                and ".coerce" in fn.args[groups[-1][1][0]].get("name", ""):
             groups[-1][1].append(k)
         else:
             groups.append((stem, [k]))
@@ -93,4 +96,67 @@ def entries(mod):
             out.append(("thunk", f))
         elif re.search(r"yorel::yomm2::method<.*>::(not_implemented|ambiguous)_handler\(", d):
             out.append(("handler", f))     # what the error cells of a dispatch table point to
+    return out
+
+
+def repo_units(run):
+    """the repository's own translation units (tests, documentation examples, compiler-explorer samples) compiled to IR
+    with the flags of the compile database (include paths and defines; -std=gnu++17 forced). Units clang cannot compile
+    are skipped and listed. Only available when <root> is a full checkout (scratch copies of include/ have none)."""
+    import glob
+    import json as _json
+    import os
+    import shlex
+    root = run.root
+    entries = []
+    bn = os.path.join(root, "_build", "build.ninja")
+    if os.path.exists(bn):
+        r = common.sh(["ninja", "-C", os.path.join(root, "_build"), "-t", "compdb"])
+        if r.returncode == 0:
+            try:
+                seen = set()
+                for e in _json.loads(r.stdout):
+                    f = e["file"]
+                    if not f.endswith(".cpp") or f in seen or not f.startswith(root + "/"):
+                        continue
+                    seen.add(f)
+                    fl = [t for t in shlex.split(e["command"]) if t.startswith(("-I", "-D", "-fno-rtti"))]
+                    entries.append((f, fl))
+            except ValueError:
+                pass
+    if not entries and os.path.isdir(os.path.join(root, "tests")):
+        for f in sorted(glob.glob(os.path.join(root, "tests", "*.cpp")) + glob.glob(os.path.join(root, "docs.in", "**", "*.cpp"), recursive=True) + glob.glob(os.path.join(root, "ce", "*.cpp"))):
+            entries.append((f, ["-I" + run.inc, "-DNDEBUG"]))
+    units = []
+    skipped = []
+
+    def one(e):
+        f, fl = e
+        name = "repo_" + os.path.relpath(f, root).replace("/", "_").replace(".cpp", "")
+        return f, common.ir_json_file(run, f, [common.STD] + fl, name)
+    for f, pth in common.parallel(one, entries):
+        if pth is None:
+            skipped.append(os.path.relpath(f, root))
+        else:
+            units.append({"file": os.path.relpath(f, root), "path": pth})
+    run.notes.append("repository units: %d compiled, %d skipped (clang could not compile them: %s)" % (len(units), len(skipped), skipped[:6]))
+    return units
+
+
+def generic_entries(mod):
+    """call-path entries of an arbitrary unit: every method::operator() / resolve, thunk, resolution handler and
+    virtual_ptr member instantiated in it."""
+    out = []
+    for f in mod.funcs.values():
+        if not f.body:
+            continue
+        d = irq.strip_ret(f.dname)
+        if re.search(r"^yorel::yomm2::method<.*>::operator\(\)\(", d) and "::add_function<" not in d:
+            out.append(("method::operator()", f))
+        elif re.search(r"yorel::yomm2::detail::thunk<.*>::fn\(", d):
+            out.append(("thunk", f))
+        elif re.search(r"^yorel::yomm2::method<.*>::(not_implemented|ambiguous)_handler\(", d):
+            out.append(("handler", f))
+        elif d.startswith("yorel::yomm2::virtual_ptr<") or d.startswith("yorel::yomm2::final_virtual_ptr<") or d.startswith("yorel::yomm2::make_virtual_shared<"):
+            out.append(("virtual_ptr", f))
     return out
